@@ -119,6 +119,12 @@ def body():
         v("otherkey", der, "other", sid, False, True, False)
         v("otherid", der, "right", sid + b"x", True, False, False)
         v("otherid2", der, "right", b"1234567812345678" if sid != b"1234567812345678" else b"1234567812345679", True, False, False)
+        # an algorithm identifier replaced by another one the library knows (same encoded length): the outer one is not under the signature, the inner one is
+        SM2SIGN, ECDSA256 = bytes.fromhex("2a811ccf55018375"), bytes.fromhex("2a8648ce3d040302")
+        occ = [i for i in range(len(der) - 8) if der[i:i + 8] == SM2SIGN]
+        if o["kind"] != "req" and len(occ) >= 2:
+            for nm, i in (("inner", occ[0]), ("outer", occ[-1])):
+                v("algswap:%s" % nm, der[:i] + ECDSA256 + der[i + 8:], "right", sid, True, True, True)
         if o.get("light"):
             continue
         nbits = len(der) * 8
